@@ -189,6 +189,9 @@ struct qb_ipcs_connection {
 	int32_t fc_enabled;
 	int32_t poll_events;
 	int32_t outstanding_notifiers;
+	int32_t in_closed_cb;
+	int32_t closed_cb_done;
+	int32_t closed_retry_queued;
 	char description[CONNECTION_DESCRIPTION];
 	struct qb_ipcs_connection_stats_2 stats;
 };
